@@ -5,7 +5,7 @@ import VlsModel.Drv.Common
 Line-protocol driver for the policy / mutual-close model (properties C05 and C07).
 
 All tokens are decimal integers.
-  policy  <onchain> <minDelay> <maxDelay> <maxChan> <eps> <maxHtlcs> <maxHtlcValue> <useChain> <minFee> <maxFee> <maxRoutingFee> <warnmask>
+  policy  <onchain> <minDelay> <maxDelay> <maxChan> <eps> <maxHtlcs> <maxHtlcValue> <useChain> <minFee> <maxFee> <maxRoutingFee> <warnmask> [<k> (<idx> <kind> <action>)*k]
   setup   <outbound> <value> <pushMsat> <holderDelay> <cpDelay> <ctype 0..3> <upfrontSid (0=none)> <upfrontSpendable> <upfrontAllowlisted>
   allow <sid>* | allow_add <sid>* | allow_rm <sid>*       (allowlist set / add / remove; model: no-op, the flags on the close ops follow)
   restart                                                 (node restored from the real persister; state digest must be unchanged)
@@ -47,6 +47,22 @@ def filterOfMask (mask : Nat) : List Rule :=
     ["policy-commitment-fee", "policy-commitment-htlc", "policy-commitment", "policy-mutual",
      "policy-channel-contest-delay-range"].map (fun t => (⟨t, false, .warn⟩ : Rule)) else []
   if mask.testBit 30 then permissiveFilter ++ nearMiss ++ specific else nearMiss ++ specific
+
+/-- prefixes used by explicit prefix rules on the op line (same table as `PREFIXES` in c05_world.rs) -/
+def prefixTable : List String :=
+  ["policy-commitment-", "policy-mutual-", "policy-", "policy-channel-", "policy-commitment-htlc-",
+   "policy-commitment-fee", "", "policy-onchain-", "policy-revoke-", "policy-funding-"]
+
+/-- explicit, ORDERED rules that precede the mask-derived ones: triples `<idx> <kind> <action>`;
+    kind 0 = exact rule on the idx-th tag of `maskTags`, kind 1 = prefix rule on the idx-th entry of
+    `prefixTable`; action 0 = error, 1 = warn -/
+def explicitRules? : List Nat → Option (List Rule)
+  | [] => some []
+  | idx :: kind :: act :: rest => do
+    let tag ← if kind = 0 then (maskTags[idx]?).map Tag.name else prefixTable[idx]?
+    let tail ← explicitRules? rest
+    pure ((⟨tag, kind != 0, if act = 0 then .error else .warn⟩ : Rule) :: tail)
+  | _ => none
 
 structure St where
   policy : Policy
@@ -133,12 +149,19 @@ def step (st : St) (toks : List String) : St × String :=
     | none => (st, "bad-op")
     | some a =>
       match op, a with
-      | "policy", [oc, mind, maxd, maxc, eps, maxh, maxhv, uc, minf, maxf, mrf, mask] =>
-        let raw : RawPolicy :=
-          { minDelay := mind, maxDelay := maxd, maxChannelSize := maxc, epsilon := eps, maxHtlcs := maxh,
-            maxHtlcValue := maxhv, useChainState := b uc, minFeerate := minf, maxFeerate := maxf,
-            maxRoutingFeeMsat := mrf, enforceBalance := false, filter := filterOfMask mask }
-        ({ st with policy := { raw with onchain := b oc } }, "ok")
+      | "policy", oc :: mind :: maxd :: maxc :: eps :: maxh :: maxhv :: uc :: minf :: maxf :: mrf :: mask :: extra =>
+        -- optional tail: `<k> (<idx> <kind> <action>)*k`, explicit ordered rules evaluated before the mask rules
+        let explicit : Option (List Rule) := match extra with
+          | [] => some []
+          | k :: triples => if triples.length = 3 * k then explicitRules? triples else none
+        match explicit with
+        | none => (st, "bad-op")
+        | some ex =>
+          let raw : RawPolicy :=
+            { minDelay := mind, maxDelay := maxd, maxChannelSize := maxc, epsilon := eps, maxHtlcs := maxh,
+              maxHtlcValue := maxhv, useChainState := b uc, minFeerate := minf, maxFeerate := maxf,
+              maxRoutingFeeMsat := mrf, enforceBalance := false, filter := ex ++ filterOfMask mask }
+          ({ st with policy := { raw with onchain := b oc } }, "ok")
       | "allow", _ => (st, "ok")
       | "allow_add", _ => (st, "ok")
       | "allow_rm", _ => (st, "ok")
